@@ -3,6 +3,7 @@
       .../mesh_prediction_scheme_parallelogram_{shared,encoder,decoder}.h
       .../mesh_prediction_scheme_constrained_multi_parallelogram_{shared,encoder,decoder}.h
       .../mesh_prediction_scheme_tex_coords_portable_{predictor,encoder,decoder}.h, core/math_utils.h (IntSqrt)
+      .../mesh_prediction_scheme_geometric_normal_{encoder,decoder,predictor_area,predictor_base}.h (section 6)
     for DataTypeT = CorrType = int32_t, TransformT = PredictionSchemeWrap{En,De}codingTransform<int32_t>
     (Model/Wrap.v), MeshDataT = MeshPredictionSchemeData<CornerTable>.
 
@@ -25,7 +26,7 @@
     well-formedness: whenever the model encoder returns [Some], the decoder returns the original.  The
     well-formedness the C++ assumes is only needed for the encoder not to fail ([md_wf] in Predict_proofs.v). *)
 From Coq Require Import ZArith List Bool Arith.
-From Draco Require Import Base.Codec Model.Varint Model.Wrap Model.CornerTable Model.SeqAttr Model.BitCoders.
+From Draco Require Import Base.Codec Model.Varint Model.Wrap Model.Octahedron Model.CornerTable Model.SeqAttr Model.BitCoders.
 Import ListNotations.
 Local Open Scope Z_scope.
 
@@ -694,3 +695,275 @@ Fixpoint tc_choice_from (md : mesh_data) (pos : list v3) (data : list row) (n i 
 Definition tc_choice (md : mesh_data) (pos : list v3) (data : list row) (vec : list bool) : nat -> bool :=
   let tbl := tc_choice_from md pos data (length data) 0 (rev vec) in
   fun i => nth i tbl true.
+
+(** * 6. Geometric normal prediction
+    (mesh_prediction_scheme_geometric_normal_{encoder,decoder}.h, …_predictor_area.h (TRIANGLE_AREA mode, the only
+    one the encoder uses and the only one bitstream >= 2.2 can express), …_predictor_base.h,
+    mesh/corner_table_iterators.h (VertexCornersIterator), OctahedronToolBox::CanonicalizeIntegerVector /
+    IntegerVectorToQuantizedOctahedralCoords of normal_compression_utils.h)
+    with TransformT = PredictionSchemeNormalOctahedronCanonicalized{En,De}codingTransform<int32_t> (Model/Octahedron.v).
+    Entries are octahedral coordinate pairs; the prediction depends on the side information only (corner table, maps,
+    the int32 positions of the entries): BOTH loops run data_id = 0 … n-1.  The flip bit is the encoder's policy. *)
+
+(** The encoder loop as written (ascending); same predictor interface as [enc_down].  [i] = entries done,
+    [todo] = the entries still to do, [out]/[ws] in ascending order. *)
+Section CausalUp.
+  Context {E Pr C A W : Type}.
+  Variable tenc : E -> Pr -> C.
+  Variable Pe : list E -> nat -> A -> option (Pr * W).
+  Fixpoint enc_up (data : list E) (choice : nat -> A) (i : nat) (todo : list E) (out : list C) (ws : list W)
+    : option (list C * list W) :=
+    match todo with
+    | [] => Some (out, ws)
+    | o :: rest =>
+      match Pe (firstn i data) i (choice i) with
+      | None => None
+      | Some (p, w) => enc_up data choice (S i) rest (out ++ [tenc o p]) (ws ++ [w])
+      end
+    end.
+  Definition causal_enc_up (data : list E) (choice : nat -> A) : option (list C * list W) :=
+    enc_up data choice 0%nat data [] [].
+End CausalUp.
+
+(** VertexCornersIterator(table, corner_id): the corners visited, in order.
+      Next(): if (left_traversal_) { corner_ = SwingLeft(corner_);
+                 if (corner_ == kInvalid) { corner_ = SwingRight(start_corner_); left_traversal_ = false; }
+                 else if (corner_ == start_corner_) corner_ = kInvalid; }
+              else corner_ = SwingRight(corner_);
+    Fuel as in [mp_collect]. *)
+Fixpoint gn_corners (fuel : nat) (md : mesh_data) (start : nat) (corner : option nat) (left : bool) (acc : list nat)
+  : option (list nat) :=
+  match corner with
+  | None => Some acc
+  | Some c =>
+    match fuel with
+    | O => None
+    | S f =>
+      let acc' := acc ++ [c] in
+      if left then
+        match md_swing_left md c with
+        | None => None
+        | Some None =>
+          match md_swing_right md start with
+          | None => None
+          | Some nxt => gn_corners f md start nxt false acc'
+          end
+        | Some (Some c') => if (c' =? start)%nat then Some acc' else gn_corners f md start (Some c') true acc'
+        end
+      else
+        match md_swing_right md c with
+        | None => None
+        | Some nxt => gn_corners f md start nxt false acc'
+        end
+    end
+  end.
+
+(** GetPositionForCorner(ci) = position of entry vertex_to_data_map->at(Vertex(ci)): out of range -> [None] *)
+Definition gn_pos_of_corner (md : mesh_data) (pos : list v3) (c : nat) : option v3 :=
+  match md_entry_of_corner md c with
+  | Some e => tc_pos_at pos e
+  | None => None
+  end.
+(** CrossProduct<int64_t>: r0 = u1*v2 - u2*v1, r1 = u2*v0 - u0*v2, r2 = u0*v1 - u1*v0 (signed: overflow is UB
+    for position differences >= 2^31; wrapped here) *)
+Definition v3_cross (u v : v3) : v3 :=
+  let '(u0, u1, u2) := u in let '(v0, v1, v2) := v in
+  (to_i64 (to_i64 (u1 * v2) - to_i64 (u2 * v1)),
+   to_i64 (to_i64 (u2 * v0) - to_i64 (u0 * v2)),
+   to_i64 (to_i64 (u0 * v1) - to_i64 (u1 * v0))).
+(** normal_data[k] = normal_data[k] + cross_data[k] as uint64_t *)
+Definition v3_addu (a b : v3) : v3 :=
+  let '(a0, a1, a2) := a in let '(b0, b1, b2) := b in (to_i64 (a0 + b0), to_i64 (a1 + b1), to_i64 (a2 + b2)).
+(** VectorD<int64_t,3>::AbsSum(): saturates at int64 max *)
+Definition abs_sum64 (v : v3) : Z :=
+  let '(a, b, c) := v in
+  let s1 := abs64 a in
+  if s1 >? i64_max - abs64 b then i64_max else
+  let s2 := s1 + abs64 b in
+  if s2 >? i64_max - abs64 c then i64_max else s2 + abs64 c.
+
+Fixpoint gn_sum (md : mesh_data) (pos : list v3) (cent : v3) (corners : list nat) (normal : v3) : option v3 :=
+  match corners with
+  | [] => Some normal
+  | c :: rest =>
+    match gn_pos_of_corner md pos (next_c c), gn_pos_of_corner md pos (prev_c c) with
+    | Some pn, Some pp => gn_sum md pos cent rest (v3_addu normal (v3_cross (v3_sub pn cent) (v3_sub pp cent)))
+    | _, _ => None
+    end
+  end.
+(** MeshPredictionSchemeGeometricNormalPredictorArea::ComputePredictedValue (TRIANGLE_AREA):
+      upper_bound = 1 << 29; abs_sum = normal.AbsSum();
+      if (abs_sum > upper_bound) normal = normal / (abs_sum / upper_bound);   prediction[k] = (int32_t)normal[k] *)
+Definition gn_normal (md : mesh_data) (pos : list v3) (ci : nat) : option v3 :=
+  match gn_pos_of_corner md pos ci with
+  | None => None
+  | Some cent =>
+    match gn_corners (S (length (md_opp md))) md ci (Some ci) true [] with
+    | None => None
+    | Some corners =>
+      match gn_sum md pos cent corners (0, 0, 0) with
+      | None => None
+      | Some (n0, n1, n2) =>
+        let s := abs_sum64 (n0, n1, n2) in
+        let '(m0, m1, m2) :=
+          if s >? 536870912 then let q := s / 536870912 in (Z.quot n0 q, Z.quot n1 q, Z.quot n2 q)
+          else (n0, n1, n2) in
+        Some (to_i32 m0, to_i32 m1, to_i32 m2)
+      end
+    end
+  end.
+
+(** OctahedronToolBox::CanonicalizeIntegerVector<int32_t>:
+      abs_sum = (int64)|v0| + |v1| + |v2|;
+      abs_sum == 0: v0 = center_value_;
+      else v0 = (int64)v0 * center / abs_sum; v1 = (int64)v1 * center / abs_sum;
+           v2 = v2 >= 0 ? center - |v0| - |v1| : -(center - |v0| - |v1|)
+    (std::abs(INT_MIN) would be UB; the components handed in are below 2^30 in magnitude.  The results are at
+    most center_value_ in magnitude — [canonicalize_int_vec_bounds] — so the int32 stores are exact.) *)
+Definition canonicalize_int_vec (b : obox) (v : v3) : v3 :=
+  let '(x, y, z) := v in
+  let c := ob_center b in
+  let abs_sum := Z.abs x + Z.abs y + Z.abs z in
+  if abs_sum =? 0 then (c, y, z)
+  else
+    let x' := Z.quot (x * c) abs_sum in
+    let y' := Z.quot (y * c) abs_sum in
+    let r := c - Z.abs x' - Z.abs y' in
+    (x', y', if z >=? 0 then r else - r).
+(** OctahedronToolBox::IntegerVectorToQuantizedOctahedralCoords *)
+Definition int_vec_to_oct (b : obox) (v : v3) : pt :=
+  let '(x, y, z) := v in
+  let c := ob_center b in
+  let mx := ob_maxv b in
+  let st :=
+    if x >=? 0 then (y + c, z + c)
+    else ((if y <? 0 then Z.abs z else mx - Z.abs z), (if z <? 0 then Z.abs y else mx - Z.abs y)) in
+  canonicalize b st.
+Definition v3_neg (v : v3) : v3 := let '(x, y, z) := v in (- x, - y, - z).
+
+(** the predicted octahedral coordinates for flip = false / true:
+    canonicalize the integer vector FIRST, negate AFTER, convert last (encoder and decoder alike) *)
+Definition gn_predict (b : obox) (md : mesh_data) (pos : list v3) (i : nat) (flip : bool) : option pt :=
+  match nth_error (md_d2c md) i with
+  | None => None
+  | Some ci =>
+    match gn_normal md pos ci with
+    | None => None
+    | Some n3 =>
+      let v := canonicalize_int_vec b n3 in
+      Some (int_vec_to_oct b (if flip then v3_neg v else v))
+    end
+  end.
+Definition gn_predict_enc (b : obox) (md : mesh_data) (pos : list v3) (pre : list pt) (i : nat) (flip : bool)
+  : option (pt * bool) :=
+  match gn_predict b md pos i flip with Some p => Some (p, flip) | None => None end.
+(** decoder: state = the flip bits not yet read (DecodeNextBit never fails) *)
+Definition gn_predict_dec (b : obox) (md : mesh_data) (pos : list v3) (pre : list pt) (i : nat) (st : list bool)
+  : option (pt * list bool) :=
+  match st with
+  | [] => None
+  | flip :: st' => match gn_predict b md pos i flip with Some p => Some (p, st') | None => None end
+  end.
+(** the encoder's correction: ComputeCorrection, then ModMax (to compare the two candidates: policy), then
+    MakePositive of the chosen one *)
+Definition gn_corr (b : obox) (orig pred : pt) : pt :=
+  let c := oct_canon_enc b orig pred in
+  (make_positive b (mod_max b (fst c)), make_positive b (mod_max b (snd c))).
+
+(** ComputeCorrectionValues + EncodePredictionData: transform data (max_quantized_value, center_value as int32),
+    then the RAnsBit block of the flip bits (one per entry).  [q] = quantization bits of the transform. *)
+Definition gn_encode (q : Z) (md : mesh_data) (pos : list v3) (data : list pt) (flip : nat -> bool)
+  : option (list pt * bytes) :=
+  if negb (length (md_d2c md) =? length data)%nat then None else
+  match set_quantization_bits q with
+  | None => None
+  | Some b =>
+    match causal_enc_up (gn_corr b) (gn_predict_enc b md pos) data flip with
+    | None => None
+    | Some (corr, ws) =>
+      match ransbit_encode ws with
+      | None => None
+      | Some fb => Some (corr, enc_le 4 (ob_mqv b mod 2 ^ 32) ++ enc_le 4 (ob_center b mod 2 ^ 32) ++ fb)
+      end
+    end
+  end.
+(** DecodePredictionData (bitstream >= 2.2: no prediction-mode byte) + ComputeOriginalValues *)
+Definition gn_decode (ver : Z) (md : mesh_data) (pos : list v3) (corr : list pt) (bs : bytes)
+  : option (list pt * bytes) :=
+  if negb (length (md_d2c md) =? length corr)%nat then None else
+  match dec_le 4 bs with
+  | None => None
+  | Some (mu, r1) =>
+    match dec_le 4 r1 with
+    | None => None
+    | Some (_, r2) =>
+      match oct_canon_dec_init (i32_of_u32 mu) with
+      | None => None
+      | Some b =>
+        match ransbit_start ver r2 with
+        | None => None
+        | Some (st, rest) =>
+          let bits := fst (read_n ransbit_next (length corr) st) in
+          match causal_dec (oct_canon_dec b) (gn_predict_dec b md pos) corr bits with
+          | None => None
+          | Some (out, _) => Some (out, rest)
+          end
+        end
+      end
+    end
+  end.
+
+(** ** Signed 64-bit operations of ComputePredictedValue (after the fix that adds the two checked products as
+    unsigned): the value every SIGNED int64 operation of the oriented branch would produce in exact arithmetic, in
+    program order, up to the first `return false`.  Before the first element outside the int64 range the machine
+    values equal the exact ones, so "all elements in range" = "no signed overflow" ([tc_no_ub]).  Unsigned
+    operations (pn_norm2 * cx_norm2, the sum of the two checked products, IntSqrt, the decoder's final +/-) are
+    defined for all operands and do not appear.  [enc = true] adds the encoder's signed x_uv +/- cx_uv (the decoder does these in uint64_t). *)
+Definition in_i64 (x : Z) : bool := (-9223372036854775808 <=? x) && (x <=? 9223372036854775807).
+Definition dot_trace (a b : v3) : list Z :=
+  let '(a0, a1, a2) := a in let '(b0, b1, b2) := b in
+  [a0 * b0; a0 * b0 + a1 * b1; a1 * b1; a0 * b0 + a1 * b1 + a2 * b2; a2 * b2].
+Definition tc_signed_trace (enc : bool) (n_uv p_uv : Z * Z) (tip nxt prv : v3) : list Z :=
+  let '(t0, t1, t2) := tip in let '(n0, n1, n2) := nxt in let '(p0, p1, p2) := prv in
+  let pn := (p0 - n0, p1 - n1, p2 - n2) in
+  let '(pn0, pn1, pn2) := pn in
+  let pn_norm2 := pn0 * pn0 + pn1 * pn1 + pn2 * pn2 in
+  [pn0; pn1; pn2] ++ dot_trace pn pn ++
+  (if pn_norm2 =? 0 then [] else
+   let cn := (t0 - n0, t1 - n1, t2 - n2) in
+   let '(cn0, cn1, cn2) := cn in
+   let cn_dot_pn := pn0 * cn0 + pn1 * cn1 + pn2 * cn2 in
+   let pn_uv := (fst p_uv - fst n_uv, snd p_uv - snd n_uv) in
+   let n_uv_absmax := Z.max (Z.abs (fst n_uv)) (Z.abs (snd n_uv)) in
+   [cn0; cn1; cn2] ++ dot_trace pn cn ++ [fst pn_uv; snd pn_uv; Z.abs (fst n_uv); Z.abs (snd n_uv)] ++
+   (if n_uv_absmax >? i64_max / pn_norm2 then [] else
+    let pn_uv_absmax := Z.max (Z.abs (fst pn_uv)) (Z.abs (snd pn_uv)) in
+    [Z.abs (fst pn_uv); Z.abs (snd pn_uv); Z.abs cn_dot_pn] ++
+    (if Z.abs cn_dot_pn >? Z.quot i64_max pn_uv_absmax then [] else
+     let x_uv := (fst n_uv * pn_norm2 + cn_dot_pn * fst pn_uv, snd n_uv * pn_norm2 + cn_dot_pn * snd pn_uv) in
+     let pn_absmax := Z.max (Z.max (Z.abs pn0) (Z.abs pn1)) (Z.abs pn2) in
+     [fst n_uv * pn_norm2; snd n_uv * pn_norm2; cn_dot_pn * fst pn_uv; cn_dot_pn * snd pn_uv;
+      Z.abs pn0; Z.abs pn1; Z.abs pn2] ++
+     (if Z.abs cn_dot_pn >? Z.quot i64_max pn_absmax then [] else
+      let q0 := Z.quot (cn_dot_pn * pn0) pn_norm2 in
+      let q1 := Z.quot (cn_dot_pn * pn1) pn_norm2 in
+      let q2 := Z.quot (cn_dot_pn * pn2) pn_norm2 in
+      let cx := (t0 - (n0 + q0), t1 - (n1 + q1), t2 - (n2 + q2)) in
+      let '(cx0, cx1, cx2) := cx in
+      let cx_norm2 := cx0 * cx0 + cx1 * cx1 + cx2 * cx2 in
+      [cn_dot_pn * pn0; cn_dot_pn * pn1; cn_dot_pn * pn2; q0; q1; q2; n0 + q0; n1 + q1; n2 + q2; cx0; cx1; cx2] ++
+      dot_trace cx cx ++
+      (match int_sqrt (to_u64 (cx_norm2 * pn_norm2)) with
+      | None => []
+      | Some norm =>
+        let cxu0 := snd pn_uv * norm in
+        let cxu1 := (- fst pn_uv) * norm in
+        [- fst pn_uv; cxu0; cxu1] ++
+        (if enc then
+           [fst x_uv + cxu0; snd x_uv + cxu1; fst x_uv - cxu0; snd x_uv - cxu1;
+            Z.quot (fst x_uv + cxu0) pn_norm2; Z.quot (snd x_uv + cxu1) pn_norm2;
+            Z.quot (fst x_uv - cxu0) pn_norm2; Z.quot (snd x_uv - cxu1) pn_norm2]
+         else [])
+      end))))).
+Definition tc_no_ub (enc : bool) (n_uv p_uv : Z * Z) (tip nxt prv : v3) : bool :=
+  forallb in_i64 (tc_signed_trace enc n_uv p_uv tip nxt prv).
